@@ -10,6 +10,7 @@
 //
 // op lines                                           answers
 //
+//	reload gc=.. early=.. order=.. q<i>=.. [f<i>=..]   the configuration loaded again (same or changed) into the same process
 //	cfg t0=<ns> gc=<sec|-> early=<0|1> order=<i,j,..> q0=c,<max>,<expSec|->,<parent|-> q1=f ...   ok | err:init
 //	req r=<id> m=<G|P>                               v=<a|r|e> c=<n0,n1,..>    (a admitted, r refused 429, e answered early 200)
 //	resp r=<id>                                      ok c=<..>
@@ -194,6 +195,25 @@ func exec(c proto.Case, o *proto.Out) []string {
 			continue
 		}
 		switch w[0] {
+		case "reload":
+			// the whole configuration again (the same or a changed one); it starts at the current instant
+			if _, has := proto.KV(w, "t0"); has {
+				outs[i] = "bad-op"
+				continue
+			}
+			cfg, ok := parseCfg(append([]string{"cfg", fmt.Sprintf("t0=%d", e.clk.Now().UnixNano())}, w[1:]...))
+			if !ok {
+				outs[i] = "bad-op"
+				continue
+			}
+			if err := e.load(cfg); err != nil {
+				outs[i] = "err:reload"
+				continue
+			}
+			outs[i] = "ok"
+			o.Count("reload")
+			last = 0
+			continue
 		case "req":
 			id, ok1 := reqID(w)
 			m, ok2 := proto.KV(w, "m")
@@ -244,10 +264,9 @@ func exec(c proto.Case, o *proto.Out) []string {
 				outs[i] = "bad-op"
 				continue
 			}
-			before := e.nextGC
-			e.advance(d)
+			ticked := e.advance(d)
 			outs[i] = "ok " + e.obs()
-			if e.nextGC != before {
+			if ticked {
 				o.Count("adv-with-gc-tick")
 			} else {
 				o.Count("adv-no-tick")
